@@ -16,7 +16,9 @@ RULE = (
     "Hypothesis draws 1-2 blocks (1-3 Q values x 2-6 x values, pids = a shuffled random subset of the 14 partons or "
     "all of them, float data from an integer seed) and a selection: a repetition-free subset of PIDs, a subset of "
     "the 14 evolution labels, or m mutually orthogonal custom vectors (columns of the QR factor of a random integer "
-    "matrix, each rescaled by a random non-unit factor; sizes uniform in 1..14), including the "
+    "matrix, each rescaled by a random non-unit factor and, in two thirds of the custom cases, by a further factor "
+    "10^e with e drawn in [-8, 8] per vector or for the whole family (norms 1e-8..1e8: the projector must not "
+    "depend on how a combination is normalised); sizes uniform in 1..14), including the "
     "complete sets (all 14). The selection vectors are produced by pid_to_flavor / evol_to_flavor (checked against "
     "the documented definitions) or passed directly. Non-trivial = selection size 2..13; distinct by the case."
 )
@@ -25,7 +27,9 @@ ASSUMPTIONS = [
     "selections are mutually orthogonal (PID subsets without repetition, evolution labels, constructed custom "
     "families) - the domain in which 'orthogonal projection' is meaningful",
     "tolerance 14 * 1e-12 * max(1, max|data|) for float accumulation (projector entries have modulus <= 1; custom "
-    "families are orthogonal to 1e-15 only, being the QR factor of an integer matrix); the vectors returned for "
+    "families are orthogonal to 1e-15 only, being the QR factor of an integer matrix); the kept-component and "
+    "orthogonal-complement predicates are evaluated with unit vectors, so they do not depend on the size of the "
+    "combinations; the vectors returned for "
     "evolution labels are compared exactly with the definitions typed from FlavorSpace.rst",
 ]
 LEVEL_TEXT = (
@@ -44,11 +48,19 @@ def _subset():
 def _selection():
     pid_sel = st.fixed_dictionaries(dict(kind=st.just("pids"), idx=_subset()))
     evol_sel = st.fixed_dictionaries(dict(kind=st.just("evol"), idx=_subset()))
+    # overall size of each custom combination: 10^e with e over 16 decades (a projector does not depend on it)
+    exps = st.one_of(
+        st.just([0.0] * 14),
+        st.lists(st.floats(-8.0, 8.0), min_size=14, max_size=14),
+        st.floats(-8.0, 8.0).map(lambda e: [e] * 14),
+    )
     custom = st.fixed_dictionaries(
-        dict(kind=st.just("custom"), m=st.sampled_from(range(1, 15)), seed=st.integers(0, 2**20))
+        dict(kind=st.just("custom"), m=st.sampled_from(range(1, 15)), seed=st.integers(0, 2**20), exps=exps)
     )
     full = st.sampled_from([{"kind": "pids", "idx": list(range(14))}, {"kind": "evol", "idx": list(range(14))}])
-    full_custom = st.fixed_dictionaries(dict(kind=st.just("custom"), m=st.just(14), seed=st.integers(0, 2**20)))
+    full_custom = st.fixed_dictionaries(
+        dict(kind=st.just("custom"), m=st.just(14), seed=st.integers(0, 2**20), exps=exps)
+    )
     return st.one_of(pid_sel, pid_sel, evol_sel, evol_sel, custom, custom, full, full_custom)
 
 
@@ -71,8 +83,10 @@ def strategy(tier):
 # --------------------------------------------------------------------------- construction helpers
 
 
-def _custom_family(m, seed):
-    """m mutually orthogonal, non-normalised float vectors of length 14 and an orthogonal completion (14-m)."""
+def _custom_family(m, seed, exps=None):
+    """m mutually orthogonal, non-normalised float vectors of length 14 and an orthogonal completion (14-m).
+
+    ``exps``: decimal exponents of an additional overall factor per vector (norms from 1e-8 to 1e8)."""
     import numpy as np
 
     rng = np.random.default_rng(seed)
@@ -81,8 +95,21 @@ def _custom_family(m, seed):
         if np.abs(np.diag(r)).min() > 1e-3:  # well conditioned, otherwise draw again from the same stream
             break
     scales = rng.choice([-3.0, -0.5, 0.25, 2.0, 7.0], size=14)  # never unit norm: the 1/(e.e) factor matters
-    vecs = [q[:, i] * scales[i] for i in range(14)]
+    exps = [0.0] * 14 if exps is None else exps
+    vecs = [q[:, i] * scales[i] * 10.0 ** exps[i] for i in range(14)]
     return vecs[:m], vecs[m:]
+
+
+def _norm_class(vecs):
+    import numpy as np
+
+    norms = [float(np.sqrt(v @ v)) for v in vecs]
+    lo, hi = min(norms), max(norms)
+    if lo < 1e-4:
+        return "some<1e-4"
+    if hi > 1e4:
+        return "some>1e4"
+    return "moderate"
 
 
 def _make_blocks(spec):
@@ -170,7 +197,7 @@ def check_case(case):
         rest = [np.array([float(fr.QCD_EVOL[c].get(p, 0)) for p in pids]) for c in names if c not in chosen]
         size = len(chosen)
     else:
-        want, rest = _custom_family(sel["m"], sel["seed"])
+        want, rest = _custom_family(sel["m"], sel["seed"], sel.get("exps"))
         reprs = np.array(want)
         size = sel["m"]
     if kind != "custom":
@@ -187,6 +214,7 @@ def check_case(case):
         f"sel={kind}",
         "complete" if complete else ("single" if size == 1 else "partial"),
         f"blocks={nblk}",
+        "norms=" + ("n/a" if kind != "custom" else _norm_class(want)),
         "all-pids-block" if allpid else "subset-pids-block",
     ]
 
@@ -235,11 +263,13 @@ def check_case(case):
             failed.append(f"value: max |project - sum_e e e^T/(e.e) data| = {np.abs(got - ref).max():.3e}")
         # (2) keeps exactly the components along the selection, removes everything orthogonal to it
         for w in want:
+            w = w / np.sqrt(w @ w)  # the predicates are about directions: independent of the size of the vectors
             d = np.abs(w @ got - w @ full).max()
             if not d <= tol * max(1.0, float(np.abs(w).sum())):
                 failed.append(f"kept-component: the component along a selected combination changed by {d:.3e}")
                 break
         for w in rest:
+            w = w / np.sqrt(w @ w)
             d = np.abs(w @ got).max()
             if not d <= tol * max(1.0, float(np.abs(w).sum())):
                 failed.append(f"orthogonal-complement: a combination orthogonal to the selection survives with size {d:.3e}")
